@@ -179,6 +179,13 @@ func EnvStubs(st map[string]StubFn) {
 		return r.branch(v)
 	}
 	st["go/parser.ParseExpr"] = func(r *Run, fr *frame, fn *ssa.Function, a []value) value {
+		if s, ok := a[0].(string); ok {
+			// concrete text: the real parser's verdict and message
+			if _, err := goparser.ParseExpr(s); err != nil {
+				return tuple{iface{}, r.newError(err.Error())}
+			}
+			return tuple{iface{}, iface{}}
+		}
 		if parsesAsExpr(r, a[0]) {
 			return tuple{iface{}, iface{}}
 		}
